@@ -336,6 +336,11 @@ func instrumentFile(p *packages.Package, f *ast.File, fn string, pristine bool) 
 				census(n, "concurrency", "channel receive")
 			}
 		case *ast.CallExpr:
+			if id, ok := n.Fun.(*ast.Ident); ok && id.Name == "uintptr" && len(n.Args) == 1 {
+				if t := info.TypeOf(n.Args[0]); t != nil && t.String() == "unsafe.Pointer" {
+					census(n, "nondeterminism", "uintptr(unsafe.Pointer) (heap address)")
+				}
+			}
 			if sel, ok := n.Fun.(*ast.SelectorExpr); ok {
 				// reflect.Value.MapKeys / MapRange
 				if s := info.Selections[sel]; s != nil {
@@ -350,6 +355,9 @@ func instrumentFile(p *packages.Package, f *ast.File, fn string, pristine bool) 
 							census(n, "nondeterminism", "reflect.Value.MapRange")
 						case fnObj.Pkg().Path() == "sync" && namedIs(s.Recv(), "sync", "Map") && fnObj.Name() == "Range":
 							census(n, "nondeterminism", "sync.Map.Range")
+						case fnObj.Pkg().Path() == "reflect" && (fnObj.Name() == "Pointer" || fnObj.Name() == "UnsafeAddr" || fnObj.Name() == "UnsafePointer"):
+							// a heap address as data: no seam can own it
+							census(n, "nondeterminism", "reflect.Value."+fnObj.Name()+" (heap address)")
 						}
 					}
 				}
